@@ -75,7 +75,7 @@ def run(tier, seed):
                                     theorem=pg['theorems'], problems=pg['problems']), False))
     ncases = 12 if tier == 'quick' else 150
     cases = [seed * 100000 + 3000 + i for i in range(ncases)]
-    for r in core.run_cases(run_case, cases):
+    for r in core.run_cases(run_case, core.with_corpus(PID, cases)):
         rep.merge(r)
     # violations inside the known region that are not listed stay violations
     if rep.known_hits and KNOWN_KEY not in known:
